@@ -541,8 +541,11 @@ def check_parse(ctx):
                     isinstance(e.values[-1], ast.Dict) and not \
                     e.values[-1].keys:
                 empty = True
-            if not excs and names and names[0] and names[0].endswith(
-                    'jsonutils.loads'):
+            dec = [x for x in names if x and x.endswith(
+                ('jsonutils.loads', 'json.loads', 'yaml.safe_load',
+                 'yaml.load'))]
+            if not excs and dec and dec[0].endswith(('jsonutils.loads',
+                                                      'json.loads')):
                 json_first = True
             if excs and 'ValueError' in excs[0] and any(
                     n and n.endswith('yaml.safe_load') for k, n in calls
